@@ -243,7 +243,14 @@ Ev(e, row, data) ==
                 ELSE IF e.p = <<>> THEN Aggregate(e.f, <<>>, Len(members.e))
                 ELSE LET col == PathGet(members, e.p)
                      IN  IF ~IsArr(col) THEN Err ELSE Aggregate(e.f, col.e, Len(col.e))
-      [] e.k = "fn" -> Builtin(e.f, EvList(e.args, row, data), Null)
+      [] e.k = "fn" ->
+            \* execution strategies change timing, not values (C14): ASYNC / SCOPED evaluate to the
+            \* call's value, SPIN / SPINASYNC contribute no column; ONCE is stateful and left open here
+            LET qual == IF "qual" \in DOMAIN e THEN e.qual ELSE ""
+                v    == Builtin(e.f, EvList(e.args, row, data), Null)
+            IN  IF qual \in {"spin", "spinasync"} THEN (IF IsErr(v) THEN Err ELSE [t |-> "omit"])
+                ELSE IF qual = "once" THEN Unspec
+                ELSE v
       [] e.k = "sub" -> RunQ(e.q, Marked(row, data))
       [] e.k = "exists" ->
             \* the subquery's source rows, each extended with the outer row's columns
